@@ -61,6 +61,10 @@ DiffPlainJSON(d) ==
 
 (***************************************************************************)
 (* Well-formedness relative to the base document (property C11).           *)
+(* Only what C11 states: ordered by position, no overlap, within bounds,   *)
+(* keys targeted once, add on absent / remove-replace-patch on present     *)
+(* keys, patches only into containers and never empty.  (A removerange of  *)
+(* length 0 or an addrange of no values is odd but not ruled out.)         *)
 (***************************************************************************)
 Covers(e) == e.op \in {"removerange", "patch"}
 EndOf(e)  == IF e.op = "removerange" THEN e.key + e.length
@@ -72,7 +76,7 @@ SeqEntryShape(n, e) ==
   /\ e.op \in SeqOps
   /\ e.key \in 0..n
   /\ CASE e.op = "addrange"    -> "valuelist" \in DOMAIN e
-       [] e.op = "removerange" -> "length" \in DOMAIN e /\ e.length >= 1 /\ e.key + e.length <= n
+       [] e.op = "removerange" -> "length" \in DOMAIN e /\ e.length >= 0 /\ e.key + e.length <= n
        [] e.op = "patch"       -> "diff" \in DOMAIN e /\ e.key < n /\ Len(e.diff) > 0
 
 SeqOrderOK(d) ==
@@ -89,14 +93,14 @@ WellFormedChars(chars, d) ==
   /\ \A j \in 1..Len(d) :
         /\ SeqEntryShape(Len(chars), d[j])
         /\ d[j].op # "patch"                       \* cannot descend into a character
-        /\ d[j].op = "addrange" => (d[j].valuelist.t = "s" /\ Len(d[j].valuelist.c) > 0)
+        /\ d[j].op = "addrange" => d[j].valuelist.t = "s"
   /\ SeqOrderOK(d)
 
 RECURSIVE WellFormed(_, _)
 WellFormedList(items, d) ==
   /\ \A j \in 1..Len(d) :
         /\ SeqEntryShape(Len(items), d[j])
-        /\ d[j].op = "addrange" => (d[j].valuelist.t = "l" /\ Len(d[j].valuelist.e) > 0)
+        /\ d[j].op = "addrange" => d[j].valuelist.t = "l"
         /\ d[j].op = "patch" =>
               LET it == items[d[j].key + 1] IN IsContainer(it) /\ WellFormed(it, d[j].diff)
   /\ SeqOrderOK(d)
@@ -106,7 +110,7 @@ WellFormedString(c, d) ==
   /\ \A j \in 1..Len(d) :
         /\ SeqEntryShape(Len(lines), d[j])
         /\ d[j].op = "addrange" =>
-              /\ d[j].valuelist.t = "l" /\ Len(d[j].valuelist.e) > 0
+              /\ d[j].valuelist.t = "l"
               /\ \A i \in 1..Len(d[j].valuelist.e) : d[j].valuelist.e[i].t = "s"
         /\ d[j].op = "patch" => WellFormedChars(lines[d[j].key + 1], d[j].diff)
   /\ SeqOrderOK(d)
